@@ -35,6 +35,11 @@ class HarnessError(Exception):
     """A bug or limit in the simulator / a model.  Never a VIOLATION."""
 
 
+class StepCap(BaseException):
+    """A run used far more simulator steps than any legitimate run needs: the
+    code under test polls or retries without ever giving up (livelock)."""
+
+
 class Hang(Exception):
     """No task is runnable, nothing is scheduled, yet a task is blocked."""
 
@@ -130,7 +135,7 @@ class Task:
 class Ctx:
     """Per-run context: tape + kernel + observation sinks."""
 
-    def __init__(self, tape, threaded=False, trace=False, max_steps=2_000_000):
+    def __init__(self, tape, threaded=False, trace=False, max_steps=400_000):
         self.tape = tape
         self.threaded = threaded
         # clock
@@ -235,7 +240,7 @@ class Ctx:
     def _step(self):
         self.steps += 1
         if self.steps > self.max_steps:
-            raise HarnessError("step cap %d exceeded" % self.max_steps)
+            raise StepCap("step cap %d exceeded" % self.max_steps)
 
     def _run_due(self):
         """Run every event due at or before now (Mode I, no lock held)."""
